@@ -105,6 +105,11 @@ fn lex_multiline_str(lex: &mut logos::Lexer<TokenKind>) -> Option<()> {
             // trailing newline that brought us here.
             if lines >= 2 {
                 consumed = line_start.saturating_sub(1);
+                // In a CRLF file the line terminator is two bytes: leave both to the
+                // whitespace token instead of keeping the `\r` in the string.
+                if consumed > 0 && bytes[consumed - 1] == b'\r' {
+                    consumed -= 1;
+                }
                 break;
             }
             return None;
